@@ -5,7 +5,7 @@
     TLSConfig.GetCertificate (Vault PKI sources issue a certificate where the store has
     none), names with non-ASCII letters that strings.ToLower changes, real sleeping time. *)
 From Coq Require Import String List NArith Sorted.
-From Fabio Require Import Lib.Outcome Lib.Bytes Model.CertStore Proofs.CertStore.
+From Fabio Require Import Lib.Outcome Lib.Bytes Model.CertStore Proofs.CertStore Model.CertDeploy Proofs.CertDeploy.
 Import ListNotations.
 Local Open Scope N_scope.
 
@@ -353,3 +353,144 @@ Theorem C11_republished_chain_example :
   /\ fc_leaf shop_old = fc_leaf shop_new /\ fc_rest shop_old <> fc_rest shop_new.
 Proof. exact republished_chain_example. Qed.
 Print Assumptions C11_republished_chain_example.
+
+(* ===== every listener answers in its own strictmatch setting ===== *)
+
+(* main.go makes one tls.Config per listener (makeTLSConfig: the ui listener, then the proxy
+   listeners): a source, a store and a GetCertificate closure of its own.  For every list of
+   listeners, every position in it, every history of loads of the certificate sources: the
+   handshake on a listener is answered from the last usable load of ITS certificate source
+   in ITS OWN strictmatch setting - "the first certificate of the set, or no certificate at
+   all when strict matching is on" is decided per listener, also when several listeners name
+   the same certificate source. *)
+Theorem C11_listener_own_source_and_mode : forall srcs ls k l n,
+  nth_error ls k = Some l -> l_cs l <> [] ->
+  nth_error (listener_answers srcs ls n) k =
+  Some (Some (store_pick (last_good [] (history_of srcs (l_cs l))) n (l_strict l))).
+Proof. exact listener_answer_own. Qed.
+Print Assumptions C11_listener_own_source_and_mode.
+Theorem C11_listener_without_source_has_no_tls : forall srcs ls k l n,
+  nth_error ls k = Some l -> l_cs l = [] -> nth_error (listener_answers srcs ls n) k = Some None.
+Proof. exact listener_plain. Qed.
+Print Assumptions C11_listener_without_source_has_no_tls.
+(* ... so the other listeners of the configuration and the order of creation do not matter *)
+Theorem C11_listener_independent_of_the_others : forall srcs ls k l n,
+  nth_error ls k = Some l ->
+  nth_error (listener_answers srcs ls n) k = nth_error (listener_answers srcs [l] n) 0.
+Proof. exact listener_independent. Qed.
+Print Assumptions C11_listener_independent_of_the_others.
+Theorem C11_listener_example :
+  nth_error lenient_then_strict 2 = Some {| l_cs := bs "site"; l_strict := true |} /\
+  bs "site" <> [] /\
+  listener_answers site_srcs lenient_then_strict (bs "unknown.example") = [Some (PCert 0); None; Some PNone] /\
+  listener_answers site_srcs (rev lenient_then_strict) (bs "unknown.example") = [Some PNone; None; Some (PCert 0)] /\
+  listener_answers site_srcs lenient_then_strict (bs "X.b.example.") = [Some (PCert 1); None; Some (PCert 1)].
+Proof. exact listener_example. Qed.
+Print Assumptions C11_listener_example.
+(* NOT the code ([start_listeners_sharing]): were the tls.Config made first for a certificate
+   source handed to the later listeners of that source, the later listener would answer in the
+   first one's strictness *)
+Theorem C11_shared_listener_config_refuted :
+  exists srcs ls n l,
+    nth_error ls 2 = Some l /\ l_strict l = true /\
+    nth_error (listener_answers_sharing srcs ls n) 2 = Some (Some (PCert 0)) /\
+    nth_error (listener_answers srcs ls n) 2 = Some (Some PNone) /\
+    nth_error (listener_answers_sharing srcs (rev ls) n) 2 = Some (Some PNone) /\
+    nth_error (listener_answers srcs (rev ls) n) 2 = Some (Some (PCert 0)).
+Proof. exact shared_config_refuted. Qed.
+Print Assumptions C11_shared_listener_config_refuted.
+
+(* ===== a certificate directory: what counts is what its names read as ===== *)
+
+(* loadPath as a walk over the entries below the certificate path, each with what Lstat
+   reports (kind, size, modification time: for a symbolic link those of the link) and what a
+   read of its path yields.  The walk is the declarative view [dir_view]: an error when an
+   entry that is wanted (not a directory, *.pem, not hidden, at most MaxSize by Lstat) cannot
+   be read, else the bytes behind every wanted name *)
+Theorem C11_directory_load_is_view : forall d, dir_load d = dir_view d.
+Proof. exact dir_load_view. Qed.
+Print Assumptions C11_directory_load_is_view.
+Theorem C11_directory_load_error_iff : forall d,
+  dir_load d = LoadErr <-> exists p e, In (p, e) d /\ wanted (p, e) = true /\ d_read e = None.
+Proof. exact dir_load_error_iff. Qed.
+Print Assumptions C11_directory_load_error_iff.
+Theorem C11_directory_load_blocks : forall d b,
+  dir_load d = Loaded (Some b) ->
+  forall p f, In (p, f) b <-> exists e, In (p, e) d /\ wanted (p, e) = true /\ d_read e = Some f.
+Proof. exact dir_load_blocks. Qed.
+Print Assumptions C11_directory_load_blocks.
+(* what Lstat reports beyond that does not enter: a regular file or a symbolic link, whatever
+   size (on the same side of MaxSize) and modification time - same names, same bytes behind
+   them, same load *)
+Theorem C11_directory_load_ignores_metadata : forall d d',
+  Forall2 same_content d d' -> dir_load d = dir_load d'.
+Proof. exact dir_load_ignores_metadata. Qed.
+Print Assumptions C11_directory_load_ignores_metadata.
+(* For every history of directory states - however a state was brought about: files rewritten,
+   files replaced by files of the same size and time, the target of symbolic links exchanged -
+   loadPath -> watch -> store composed: the handshake after every state is presented the
+   certificate (by the names of its leaf) chosen from the last state of the prefix that reads
+   as a usable set ... *)
+Theorem C11_handshake_after_directory_history : forall dirs n s,
+  run_store_seen [] (e2e_actions watch_step false None (map dir_load dirs) n s) =
+  map (fun k => seen_on (last_good [] (firstn (S k) (map dir_view dirs))) n s) (seq 0 (length dirs)).
+Proof. exact directory_history. Qed.
+Print Assumptions C11_handshake_after_directory_history.
+(* ... so a newly published set takes effect whatever the directory looked like before ... *)
+Theorem C11_new_directory_content_takes_effect : forall dirs d set n s,
+  usable (dir_view d) = Some set ->
+  nth (length dirs) (run_store_seen [] (e2e_actions watch_step false None (map dir_load (dirs ++ [d])) n s)) SNone
+  = seen_on set n s.
+Proof. exact new_directory_content_takes_effect. Qed.
+Print Assumptions C11_new_directory_content_takes_effect.
+(* ... and a state that does not read as a usable set leaves the working set where it was *)
+Theorem C11_unusable_directory_keeps_set : forall dirs d n s,
+  usable (dir_view d) = None ->
+  nth (length dirs) (run_store_seen [] (e2e_actions watch_step false None (map dir_load (dirs ++ [d])) n s)) SNone
+  = seen_on (last_good [] (map dir_view dirs)) n s.
+Proof. exact unusable_directory_keeps_set. Qed.
+Print Assumptions C11_unusable_directory_keeps_set.
+(* what is seen is the element of the current set at the position the name-level theorems
+   are about, never something outside the set *)
+Theorem C11_seen_member : forall cur n s c,
+  seen_on cur n s = SCert c -> exists i, store_pick cur n s = PCert i /\ nth_error cur i = Some c.
+Proof. exact seen_on_member. Qed.
+Print Assumptions C11_seen_member.
+Theorem C11_seen_inside : forall cur n s i, seen_on cur n s <> SOutside i.
+Proof. exact seen_on_inside. Qed.
+Print Assumptions C11_seen_inside.
+Theorem C11_directory_switch_example :
+  Forall2 same_stat release_v1 release_v2 /\ Forall2 same_stat deployed_v1 renewed_same_stat /\
+  usable (dir_view release_v2) = Some [rel_v2_cert] /\
+  run_store_seen [] (e2e_actions watch_step false None
+                       (map dir_load [release_v1; release_v2; release_v2; release_v1; deployed_v1; renewed_same_stat])
+                       (bs "shop.example") true)
+  = [SCert rel_v1_cert; SCert rel_v2_cert; SCert rel_v2_cert; SCert rel_v1_cert; SCert rel_v1_cert; SCert rel_v2_cert].
+Proof. exact directory_switch_example. Qed.
+Print Assumptions C11_directory_switch_example.
+Theorem C11_directory_load_example :
+  dir_load [(bs ".hidden.pem", reg 10 1 (pf 9 None None));
+            (bs "README", reg 10 1 (pf 9 None None));
+            (bs "big.pem", reg 1048577 1 (pf 8 None None));
+            (bs "old", {| d_kind := KDir; d_size := 4096; d_mtime := 1; d_read := None |});
+            (bs "old/.keep.pem", reg 10 1 (pf 9 None None));
+            (bs "old/x.pem", sym 9 1 (pf 1 (Some (7, rel_v1_cert)) (Some 7)));
+            (bs "x.pem.bak", reg 10 1 (pf 9 None None))]
+  = Loaded (Some [(bs "old/x.pem", pf 1 (Some (7, rel_v1_cert)) (Some 7))])
+  /\ dir_load [(bs "a.pem", reg 10 1 (pf 1 (Some (7, rel_v1_cert)) (Some 7)));
+               (bs "gone.pem", {| d_kind := KSymlink; d_size := 12; d_mtime := 1; d_read := None |})]
+  = LoadErr.
+Proof. exact dir_load_example. Qed.
+Print Assumptions C11_directory_load_example.
+(* NOT the code ([walk_stat_cached]): a loader that reads a file again only when Lstat reports
+   another size or modification time does not have the property - a release switch behind
+   symbolic links, or a renewal deployed with the old size and time, never takes effect *)
+Theorem C11_stat_cached_loader_refuted :
+  exists d1 d2 n s set,
+    Forall2 same_stat d1 d2 /\ usable (dir_view d2) = Some set /\
+    nth 1 (run_store_seen [] (e2e_actions watch_step false None (stat_cached_loads [] [d1; d2]) n s)) SNone
+      <> seen_on set n s /\
+    nth 1 (run_store_seen [] (e2e_actions watch_step false None (map dir_load [d1; d2]) n s)) SNone
+      = seen_on set n s.
+Proof. exact stat_cache_refuted. Qed.
+Print Assumptions C11_stat_cached_loader_refuted.
